@@ -7,6 +7,7 @@ From Coq Require Import List ZArith.
 From Webp Require Import Base.Res Base.Bytes Conform.ConformVp8Hdr.
 From Webp Require Riff.RiffGrammar.
 From Webp Require Import Riff.WriterModel Riff.WriterTheorems Riff.ParserGrammar.
+From Webp Require Conform.ConformEndToEnd Conform.ConformEndToEndLossy.
 From WebpGen Require Consts.
 Open Scope Z_scope.
 
@@ -68,3 +69,38 @@ Theorem C02_limits_match_source :
   WebpGen.Consts.lossless_VP8LMagicByte = 47 /\ WebpGen.Consts.lossless_VP8LImageSizeBits = 14.
 Proof. repeat split; reflexivity. Qed.
 Print Assumptions C02_limits_match_source.
+
+(** End to end, lossless: for every source picture, every option and every
+    admissible set of choices of the lossless encoder (its heuristics are
+    choices), and every ICC / EXIF / XMP within the writer's size guard, the
+    written file is accepted by the independent container grammar, and the
+    independent format models (chunk walk + VP8L specification decoder) read
+    from it the source's dimensions, the alpha bit chosen, and exactly the
+    pixels of the source (alpha-0 pixels cleaned unless Exact).  Statement:
+    Conform.ConformEndToEnd.lossless_file_conformant_statement.  Hypotheses are
+    satisfiable: C01's non-vacuity example gives valid choices. *)
+Theorem C02_lossless_file_conformant : ConformEndToEnd.lossless_file_conformant_statement.
+Proof. exact ConformEndToEnd.lossless_file_conformant. Qed.
+Print Assumptions C02_lossless_file_conformant.
+
+(** End to end, lossy: for every well-formed set of encoder choices (header,
+    segments, filter parameters, modes, quantised levels), every ALPH payload the
+    ALPH model decodes and every metadata blob within the size guard, the
+    written file is accepted by the independent container grammar, and the
+    independent format models (chunk walk, RFC 6386 header reader, VP8
+    specification decoder, ALPH model) read from it the declared dimensions,
+    alpha iff ALPH was given, the alpha plane, a first-partition length that
+    lies within the data, and the picture the syntax denotes.  Statement:
+    Conform.ConformEndToEndLossy.lossy_file_conformant_statement.  Hypotheses are
+    satisfiable: C06_no_drift_nonvacuous gives a well-formed frame with bytes. *)
+Theorem C02_lossy_file_conformant : ConformEndToEndLossy.lossy_file_conformant_statement.
+Proof. exact ConformEndToEndLossy.lossy_file_conformant. Qed.
+Print Assumptions C02_lossy_file_conformant.
+
+(** The same with the ALPH chunk the encoder writes at AlphaQuality 100
+    (lossless coding, any prediction filter, any well-formed plan of the lossless
+    coder for the filtered plane): the analysed file reports exactly the alpha
+    plane that was given. *)
+Theorem C02_lossy_alpha_file_conformant : ConformEndToEndLossy.lossy_alpha_file_conformant_statement.
+Proof. exact ConformEndToEndLossy.lossy_alpha_file_conformant. Qed.
+Print Assumptions C02_lossy_alpha_file_conformant.
